@@ -362,6 +362,25 @@ func genFault(t *rapid.T, np int) Fault {
 	return f
 }
 
+// genFaults draws a fault combination. Later faults may address the payloads
+// that earlier faults appended (a copy that is then relabelled, re-id'd,
+// emptied, swapped to the front ...).
+func genFaults(t *rapid.T, np, nf int) []Fault {
+	var fs []Fault
+	n := np
+	for x := 0; x < nf && n > 0; x++ {
+		f := genFault(t, n)
+		fs = append(fs, f)
+		switch f.Kind {
+		case "dup", "dup_adjacent", "dup_relabel":
+			n++
+		case "drop":
+			n--
+		}
+	}
+	return fs
+}
+
 // genSegmentBatches draws the batches of one producer. evolve makes the first
 // batch bland and later batches richer, so that schema ids get retired (needed
 // for the stale-id fault).
@@ -531,9 +550,7 @@ func TestC07(t *testing.T) {
 		for c := 0; c < ncombo; c++ {
 			faults := make([][]Fault, len(fc.Segments))
 			nf := rapid.IntRange(2, 3).Draw(t, "nf")
-			for x := 0; x < nf; x++ {
-				faults[0] = append(faults[0], genFault(t, np))
-			}
+			faults[0] = genFaults(t, np, nf)
 			// The quantifier is "a valid stream prefix followed by ONE batch
 			// altered by any combination of faults": exactly one batch of a
 			// session is damaged. Sometimes it is the last batch of a follow-up
@@ -543,12 +560,8 @@ func TestC07(t *testing.T) {
 				if len(prep[k]) > 0 {
 					npk := len(prep[k][len(prep[k])-1].bar.ArrowPayloads)
 					nfk := rapid.IntRange(1, 3).Draw(t, "nfk")
-					var fk []Fault
-					for x := 0; x < nfk; x++ {
-						fk = append(fk, genFault(t, npk))
-					}
 					faults[0] = nil
-					faults[k] = fk
+					faults[k] = genFaults(t, npk, nfk)
 				}
 			}
 			msg := runSession(prep, faults, st)
